@@ -5,7 +5,7 @@ package modules
 
 import (
 	"context"
-	"errors"
+
 	"sync/atomic"
 	"time"
 
@@ -14,11 +14,20 @@ import (
 
 type c06Struct struct{ A int }
 
+// an error value that is slow to format natively: the recovering code spends
+// time between recovering and delivering the error
+type c06SlowErr struct{}
+
+func (c06SlowErr) Error() string {
+	rt.NativePause()
+	return "boom"
+}
+
 // panicValue: one of error, string, runtime error, arbitrary struct, nil
 func c06Panic(kind int) {
 	switch kind {
 	case 0:
-		panic(errors.New("boom"))
+		panic(error(c06SlowErr{}))
 	case 1:
 		panic("boom")
 	case 2:
@@ -161,6 +170,10 @@ func VerifC06_Task() {
 func VerifC06_Lifecycle() {
 	rt.NoTimers()
 	rt.SchedYieldOnly(true)
+	// one preemption at any synchronisation operation (G2): the goroutine
+	// waiting for the routine may run between the routine's finish signal and
+	// the delivery of its error
+	rt.Preemptions(1)
 	SetStdErrReporting(false)
 	modules = make(map[string]*Module)
 	modulesLocked.UnSet()
